@@ -690,6 +690,11 @@ func (s *SSEServer) handleNotificationMessage(ctx context.Context, rawMessage js
 		return
 	}
 
+	// The client reports the end of the handshake: from now on the session accepts notifications.
+	if notification.Method == MethodNotificationsInitialized {
+		session.Initialize()
+	}
+
 	// Handle notification asynchronously.
 	go func() {
 		// Create a context that will not be canceled due to HTTP connection closure.
